@@ -833,14 +833,17 @@ class BaseWorkflow(object, metaclass=abc.ABCMeta):
             self.__check_finished(time, error_tol=error_tol)
 
     def __set_est_eft_data(self, time: int):
-        input_task_set = set()
+        # Each wave is visited in task_list order (not in the iteration order of a set,
+        # which depends on object hashes): with SS/FF/SF links the values written for a
+        # task can depend on the order in which its predecessors are visited.
+        input_task_set = []
 
         # 1. Set the earliest finish time of head tasks.
         for task in self.task_list:
             task.est = time
             if len(task.input_task_list) == 0:
                 task.eft = time + task.remaining_work_amount
-                input_task_set.add(task)
+                input_task_set.append(task)
 
         # 2. Calculate PERT information of all tasks
         while len(input_task_set) > 0:
@@ -874,7 +877,7 @@ class BaseWorkflow(object, metaclass=abc.ABCMeta):
                         next_task.eft = eft
                     next_task_set.add(next_task)
 
-            input_task_set = next_task_set
+            input_task_set = [task for task in self.task_list if task in next_task_set]
 
     def __set_lst_lft_criticalpath_data(self, time: int):
         # 0. Forget the result of the previous update: the comparison below keeps the
@@ -884,7 +887,7 @@ class BaseWorkflow(object, metaclass=abc.ABCMeta):
             task.lft = -1.0
 
         # 1. Extract the list of tail tasks.
-        output_task_set = set(
+        output_task_set = list(
             filter(lambda task: len(task.output_task_list) == 0, self.task_list)
         )
 
@@ -926,7 +929,7 @@ class BaseWorkflow(object, metaclass=abc.ABCMeta):
                         prev_task.lft = lft
                     prev_task_set.add(prev_task)
 
-            output_task_set = prev_task_set
+            output_task_set = [task for task in self.task_list if task in prev_task_set]
 
     def reverse_dependencies(self):
         """
